@@ -508,7 +508,14 @@ fn lattice(o: &mut Out) {
                 let r = catch(|| {
                     let mut cover = [0u8; 36];
                     let mut oob = false;
+                    let mut rows = 0usize;
                     tri_fill(verts, |sl| {
+                        rows += 1;
+                        // runaway guard: a broken rasteriser must fail, not hang
+                        if rows > 64 || sl.xs.len() > 64 {
+                            oob = true;
+                            return;
+                        }
                         for x in sl.xs.clone() {
                             if x < 6 && sl.y < 6 {
                                 cover[sl.y * 6 + x] += 1;
